@@ -638,7 +638,7 @@ impl Prop for C14 {
             }
         }
         self.n_sched = self.sched_index.len() as u64;
-        self.n_sched + ctx.tier.pick(20_000, 2_000_000)
+        self.n_sched + ctx.tier.pick(150_000, 2_000_000)
     }
     fn run_case(&mut self, ctx: &mut Ctx, k: u64) {
         ctx.begin(k);
